@@ -107,9 +107,18 @@ func randHeader(r *rand.Rand) *bgz.Header {
 
 // Run writes the trace of all writer scenarios of the tier; mode selects the family:
 // "all" (default), or one of "plain", "fault", "hold", "hdr".
-func Run(out, mode string) {
+func Run(out, mode string) { RunRB(out, "", mode) }
+
+// RunRB additionally reads every cleanly closed plain stream back through bgzf.Reader
+// (C01) and records those reader traces in out2.
+func RunRB(out, out2, mode string) {
 	t := tr.Create(out)
 	defer t.Close()
+	var t2 *tr.Writer
+	if out2 != "" {
+		t2 = tr.Create(out2)
+		defer t2.Close()
+	}
 	watch.Threshold = 6 * time.Second
 	r := tr.Rand(812)
 	nplain, nfault, nhdr := 60, 120, 20
@@ -123,11 +132,59 @@ func Run(out, mode string) {
 	sid := 0
 	ran, aborted := 0, 0
 	run := func(sc bgz.WScenario) {
-		_, _, ok := bgz.RunWriter(t, sc)
+		b, truth, ok := bgz.RunWriter(t, sc)
 		ran++
 		if !ok {
 			aborted++
 		}
+		if t2 == nil || !ok || sc.FaultAt != 0 || sc.Class != "plain" {
+			return
+		}
+		f, whole := bgz.FileOf(b)
+		if !whole || f.Total != truth.Len() {
+			return // the writer trace is rejected for this; nothing to read back
+		}
+		// read back with a mix of Read (model buffer-size classes) and ReadByte, to the end and beyond
+		var ops []bgz.ROp
+		sizes := []int{0, 1, 2, 7, 4096, B - 1, B, B + 1, 2*B + 3, 1 << 20}
+		var planned int64
+		// one time in three the end of the data is crossed byte by byte
+		limit := f.Total + int64(B)
+		tailBytes := r.Intn(3) == 0
+		if tailBytes {
+			limit = f.Total - int64(1+r.Intn(3))
+		}
+		for planned <= limit && len(ops) < 4000 {
+			if tailBytes {
+				// exact sizes so that the reads stop short of the end
+				rem := limit + 1 - planned
+				n := int64([]int{1, 7, 4096, B, B + 1}[r.Intn(5)])
+				if n > rem {
+					n = rem
+				}
+				ops = append(ops, bgz.ROp{K: "read", N: int(n)})
+				planned += n
+				continue
+			}
+			if r.Intn(5) == 0 {
+				ops = append(ops, bgz.ROp{K: "readbyte"})
+				planned++
+				continue
+			}
+			n := sizes[r.Intn(len(sizes))]
+			if f.Total > 3*int64(B) && n < 4096 && r.Intn(3) > 0 {
+				n = B
+			}
+			ops = append(ops, bgz.ROp{K: "read", N: n})
+			planned += int64(n)
+		}
+		if tailBytes {
+			for i := 0; i < 6; i++ {
+				ops = append(ops, bgz.ROp{K: "readbyte"})
+			}
+		}
+		ops = append(ops, bgz.ROp{K: "read", N: 10}, bgz.ROp{K: "readbyte"})
+		bgz.RunReader(t2, bgz.RScenario{Class: "readback", File: f, Truth: truth, CutLen: -1, RD: []int{0, 1, 2, 4}[r.Intn(4)], Ops: ops})
 	}
 	if want("plain") {
 		// every single length class, then random scripts, each with wc in {1,2,4} (+0,16 sometimes)
